@@ -85,6 +85,7 @@ fn encode_subframe_stub(_config: &config::SubFrameCoding, _samples: &[i32], bits
 }
 
 //@ prop: C09
+//@ tier: thorough
 //@ drives: coding::encode_frame, coding::encode_frame_impl, coding::try_stereo_coding, coding::recombine_stereo_frame, ChannelAssignment::select_channels, FrameBuf::fill_stereo_with_iter
 //@ bound: 2-channel frame of 32 samples (zeros), the four subframe sizes (left, right, mid, side) arbitrary in 18..2^40 bits, every combination of the three stereo switches
 //@ asserts: the emitted pair of subframes is never larger than left+right coded independently, equals the minimum over the enabled combinations, and the header's channel assignment names the pair actually emitted
@@ -233,6 +234,7 @@ fn stream_bounds_case<const N_SAMPLES: usize, const BS: usize>() -> bool {
 }
 
 //@ prop: C04
+//@ features: nopar
 //@ drives: coding::encode_with_fixed_block_size (single-thread loop), MemSource::read_samples_from, Context::fill_interleaved, encode_fixed_size_frame, Stream::add_frame, StreamInfo::update_frame_info, StreamInfo::set_block_sizes, Frame::count_bits
 //@ bound: mono 16-bit input of 33 samples with block size 32 (one full block + a 1-sample final block) and 40 samples with block size 33; sample values free in -128..=127 (constant and verbatim subframes; blocks < 64 samples never reach the predictors)
 //@ asserts: max block size == requested; min block size >= 16 and <= every non-final frame; min/max frame size == smallest/largest byte length over the frames (count_bits/8, which C08 ties to the bytes written); total samples == input length; per-frame block sizes
@@ -247,6 +249,7 @@ fn c04_stream_bounds_short_final_block() {
 
 //@ prop: C04
 //@ tier: thorough
+//@ features: nopar
 //@ drives: coding::encode_with_fixed_block_size
 //@ bound: input lengths 0, 1, 32, 64, 65 with block size 32 (empty input, shorter than one block, exact multiples, multiple + 1)
 //@ asserts: as c04_stream_bounds_short_final_block
@@ -263,5 +266,139 @@ fn c04_stream_bounds_lengths() {
         3 => stream_bounds_case::<64, 32>(),
         _ => stream_bounds_case::<65, 32>(),
     };
+    kani::cover!(c);
+}
+
+// ======================================================================== C01 lemmas / C10 scratch buffers
+//@ prop: C01
+//@ also: C13
+//@ drives: coding::quotients_and_remainders, rice::encode_signbit, rice::decode_signbit
+//@ bound: every residual value except i32::MIN (|e| < 2^31), every Rice parameter 0..=14
+//@ asserts: (quotient << p) + remainder is the zig-zag code of the residual, the remainder is below 2^p, and un-zig-zagging gives the residual back (the Rice split loses nothing)
+#[kani::proof]
+fn c01_rice_split_is_invertible() {
+    let e: i32 = kani::any();
+    kani::assume(e != i32::MIN);
+    let p: u8 = kani::any();
+    kani::assume(p <= 14);
+    let (q, r) = quotients_and_remainders(e, p);
+    assert!(r < (1u32 << p));
+    let folded = ((q as u64) << p) + r as u64;
+    assert!(folded <= u32::MAX as u64);
+    assert!(rice::decode_signbit(folded as u32) == e);
+    kani::cover!(e < -1000 && p == 3);
+}
+
+fn fixed_errors_case<const N: usize, const M: usize>() -> bool {
+    // arbitrary prior content: what a previous call on a block of M samples left behind
+    let garbage: [i32; M] = kani::any();
+    let mut errors: FixedLpcErrors = Default::default();
+    let mut k = 0;
+    while k < 5 {
+        errors[k].reset_from_slice(&garbage);
+        k += 1;
+    }
+    let mut signal = [0i32; N];
+    let mut i = 0;
+    while i < N {
+        let v: i32 = kani::any();
+        kani::assume(v >= -(1 << 24) && v < (1 << 24)); // 25-bit side-channel range
+        signal[i] = v;
+        i += 1;
+    }
+    reset_fixed_lpc_errors(&mut errors, &signal);
+    let mut k = 0;
+    while k < 5 {
+        assert!(errors[k].as_ref().len() == N);
+        k += 1;
+    }
+    // order 0 is the signal; order k+1 is the first difference of order k (for t > k), which
+    // is the RFC 9639 fixed predictor of order k+1 applied to the signal
+    let t: usize = kani::any();
+    kani::assume(t < N);
+    assert!(errors[0].as_ref()[t] == signal[t]);
+    let mut k = 0;
+    while k < 4 {
+        if t >= k + 1 {
+            assert!(errors[k + 1].as_ref()[t] == errors[k].as_ref()[t] - errors[k].as_ref()[t - 1]);
+        }
+        k += 1;
+    }
+    if t >= 4 {
+        let x = |d: usize| signal[t - d] as i64;
+        assert!(errors[2].as_ref()[t] as i64 == x(0) - 2 * x(1) + x(2));
+        assert!(errors[4].as_ref()[t] as i64 == x(0) - 4 * x(1) + 6 * x(2) - 4 * x(3) + x(4));
+    }
+    t >= 4 && signal[t] < 0
+}
+
+//@ prop: C01
+//@ also: C10
+//@ drives: coding::reset_fixed_lpc_errors, SimdVec::{reset_from_slice, resize, as_ref, as_ref_simd, as_mut_simd}, arrayutils::pack_into_simd_vec
+//@ bound: blocks of 5 and 17 samples (one SIMD vector / two vectors with a carry across the boundary), every 25-bit sample value, scratch buffers holding arbitrary content from a previous 20-sample block
+//@ asserts: errors[0] is the signal; errors[k+1][t] = errors[k][t] - errors[k][t-1] for t > k; orders 2 and 4 equal the RFC 9639 fixed-predictor residuals; nothing of the previous block survives (lengths and contents depend on the arguments only)
+#[kani::proof]
+#[kani::unwind(40)]
+fn c01_fixed_residuals_from_dirty_scratch() {
+    let c = if kani::any() { fixed_errors_case::<5, 20>() } else { fixed_errors_case::<17, 20>() };
+    kani::cover!(c);
+}
+
+//@ prop: C01
+//@ also: C10
+//@ tier: thorough
+//@ drives: coding::reset_fixed_lpc_errors
+//@ bound: blocks of 33 samples (three SIMD vectors) after a 40-sample block, and 16 samples after a 5-sample block (growing)
+//@ asserts: as c01_fixed_residuals_from_dirty_scratch
+#[kani::proof]
+#[kani::unwind(70)]
+fn c01_fixed_residuals_three_vectors() {
+    let c = if kani::any() { fixed_errors_case::<33, 40>() } else { fixed_errors_case::<16, 5>() };
+    kani::cover!(c);
+}
+
+fn residual_assembly_case<const B: usize, const ORDER: usize, const NP: usize>() -> bool {
+    let mut errors = [0i32; B];
+    let mut i = 0;
+    while i < B {
+        let v: i32 = kani::any();
+        kani::assume(v > -(1 << 30) && v < (1 << 30));
+        errors[i] = v;
+        i += 1;
+    }
+    let warmup: usize = kani::any();
+    kani::assume(warmup <= B / NP && warmup <= 2);
+    let ps: [u8; NP] = kani::any();
+    let mut psv = Vec::with_capacity(NP);
+    let mut p = 0;
+    while p < NP {
+        kani::assume(ps[p] <= 14);
+        psv.push(ps[p]);
+        p += 1;
+    }
+    let prc = rice::PrcParameter::new(ORDER, psv, 0);
+    let cfg = config::Prc::default();
+    let r = encode_residual_with_prc_parameter(&cfg, &errors, warmup, prc);
+    let t: usize = kani::any();
+    kani::assume(t < B);
+    if t < warmup {
+        assert!(r.residual(t) == 0);
+    } else {
+        assert!(r.residual(t) == errors[t]);
+    }
+    assert!(crate::component::verif_kani::gen::valid_residual(&r));
+    let c = t >= warmup && errors[t] < 0;
+    std::mem::forget(r);
+    c
+}
+
+//@ prop: C01
+//@ drives: coding::encode_residual_with_prc_parameter, coding::encode_residual_partition, coding::quotients_and_remainders, Residual::from_parts, Residual::residual
+//@ bound: block 8 with 1 or 2 partitions, warm-up 0..=2, every Rice parameter 0..=14 per partition, every error value with |e| < 2^30
+//@ asserts: the assembled residual reproduces every error value at and after the warm-up (Residual::residual(t) == errors[t]) and is zero-padded before; it satisfies the well-formedness predicate (c18/c08)
+#[kani::proof]
+#[kani::unwind(70)]
+fn c01_residual_assembly() {
+    let c = if kani::any() { residual_assembly_case::<8, 0, 1>() } else { residual_assembly_case::<8, 1, 2>() };
     kani::cover!(c);
 }
